@@ -712,6 +712,17 @@ def e2e_cases(rng, n):
 def e2e_conversions(rng, n):
     """the conversion applied by an assignment to a wider / differently typed target: (source operand, target type)"""
     out = []
+    # the grid first: every allowed (source kind, target kind, widening) with the top bit of the source set
+    for w in (1, 3):
+        allones = (1 << w) - 1
+        for kt, wt in (("u", w), ("u", w + 2), ("s", w + 1), ("s", w + 3), ("bv", w)):
+            out.append((["u", w, allones], (kt, wt)))
+        for kt, wt in (("s", w), ("s", w + 2), ("bv", w)):
+            out.append((["s", w, -1], (kt, wt)))
+            out.append((["s", w, -(1 << (w - 1))], (kt, wt)))
+        for kt in ("bv", "u", "s"):
+            out.append((["bv", w, allones], (kt, w)))
+    n += len(out)
     while len(out) < n:
         ks = rng.choice(["u", "u", "s", "bv"])
         w = rng.choice([1, 2, 3, 4, 5, 8])
@@ -749,7 +760,7 @@ def run_e2e(ck, n):
         designs.append({"name": "c09_k%d" % i, "entity": "W",
                         "source": E2E_SRC.format(ta=ta, tb=tb, tr=tr, expr=expr_src(op, py_expr(a), py_expr(b)))})
         meta.append((c, r))
-    for i, (a, (kt, wt)) in enumerate(e2e_conversions(ck.rng, max(12, n // 3))):
+    for i, (a, (kt, wt)) in enumerate(e2e_conversions(ck.rng, max(8, n // 6))):
         tr = ty_src(kt, wt)
         c = [["assign_to", kt, wt], a, ["py", 0]]
         designs.append({"name": "c09_cp%d" % i, "entity": "W",
